@@ -514,6 +514,26 @@ func scRestakeWhileUnstaking(tw *hx.TraceWriter, rep *hx.Report) {
 	}
 }
 
+// chainRespell: a node re-spells a chain id in the other hex case ("00a1" <-> "00A1": the same chain, the
+// same index key), declares both spellings, drops one of them, and moves between that chain and others;
+// the per-chain index must list the node under the chain as long as its record declares it.
+func scChainRespell(tw *hx.TraceWriter, rep *hx.Report) {
+	c := traceCfg(hx.Seed()*1000+597, 0)
+	w := startScenario(tw, c, "chain-respell")
+	w.block(plain(), w.stakeTx("a3", "a4", 4000000, []string{"00a1"}, urls[1], nil, "a3"))
+	for _, chains := range [][]string{{"00A1"}, {"00a1", "0001"}, {"00A1", "0001"}, {"00A1", "00a1"}, {"00a1"}, {"00A1", "00a1"}, {"00A1"},
+		{"0002"}, {"00A1", "0002"}, {"00a1"}} {
+		v := w.s.Project().Val["a3"]
+		w.block(plain(), w.stakeTx("a3", v.Output, v.Tokens, chains, v.URL, v.Delegators, "a3"))
+		rep.Steps++
+	}
+	w.block(plain(), w.unstakeTx("a3", "a3", "a3"))
+	for i := 0; i < 8; i++ {
+		w.block(plain())
+	}
+	rep.Behaviours++
+}
+
 // jailed reports whether `n` is jailed in the projected state
 func jailed(n string) func(chainsim.State) bool {
 	return func(st chainsim.State) bool { v, ok := st.Val[n]; return ok && v.Jailed }
@@ -657,7 +677,7 @@ func scWallClock(tw *hx.TraceWriter, rep *hx.Report) {
 }
 
 var scenarios = []scenario{
-	{"edit-matrix", scEditMatrix}, {"delegator-edits", scDelegatorEdits}, {"unstake-session", scUnstakeSession}, {"restake-while-unstaking", scRestakeWhileUnstaking}, {"jail-unjail", scJailUnjail},
+	{"edit-matrix", scEditMatrix}, {"delegator-edits", scDelegatorEdits}, {"unstake-session", scUnstakeSession}, {"restake-while-unstaking", scRestakeWhileUnstaking}, {"chain-respell", scChainRespell}, {"jail-unjail", scJailUnjail},
 	{"force-unstake", scForceUnstake}, {"params", scParams}, {"donation", scDonation},
 	{"edit-bypass", scEditBypass}, {"wall-clock", scWallClock},
 }
